@@ -143,6 +143,23 @@ func init() {
 	})
 }
 
+func init() {
+	// family "wheel-bucket": the bucket that the real findBucket picks for the model's wheel time and deadline
+	replayFamilies = append(replayFamilies, func(o *oblResult) *replayPlan {
+		if !strings.HasSuffix(o.Func, ".findBucket") {
+			return nil
+		}
+		tm, ok1 := modelVal(o.Model, "probe_v.time")
+		ex, ok2 := modelVal(o.Model, "arg_expiration")
+		if !ok1 || !ok2 {
+			return nil
+		}
+		return &replayPlan{template: "findbucket_test.go.tmpl", pkgDir: "internal/expiration", test: "TestGovcReplay_FindBucket",
+			env: map[string]string{"GOVC_TIME": fmt.Sprintf("%d", tm), "GOVC_EXP": fmt.Sprintf("%d", ex)},
+			why: "the real Variable.findBucket with the model's wheel time and deadline, compared with the bucket the property prescribes"}
+	})
+}
+
 // tryReplay attempts to reproduce a failed obligation on the real code.
 func tryReplay(w *world, prop string, o *oblResult, rec map[string]any) (bool, map[string]any) {
 	for _, fam := range replayFamilies {
